@@ -304,6 +304,11 @@ func TestC02(t *testing.T) {
 					rt.Skip("enough open transactions")
 				}
 				g := s.gIngress(rt, "ingress", []int{0, 1})
+				if g.TCP && rapid.Bool().Draw(rt, "second connection of the user agent") {
+					// two connections from one address announcing the same sent-by
+					g.Alt = true
+					V.Class("history: second tcp connection of a user agent")
+				}
 				L := s.transportOf(g)
 				tx := &c02Txn{ID: s.nextID("h"), UA: g.UA, Ingress: g}
 				p := msgParts{IsReq: true, Version: "SIP/2.0", Method: rapid.SampledFrom([]string{"INVITE", "OPTIONS", "MESSAGE", "SUBSCRIBE", "INFO"}).Draw(rt, "method")}
@@ -412,7 +417,7 @@ func TestC02(t *testing.T) {
 				r := got[0]
 				// where: the connection the request used, or the socket it was sent from
 				if tx.Ingress.TCP {
-					c, _ := s.tcpClient(tx.UA, tx.Ingress.Entry)
+					c, _ := s.tcpConnOf(tx.Ingress)
 					if r.tcp != c {
 						failf(rt, "response for %s (sent over a TCP connection) arrived at %s\nhistory: %v", tx.ID, r.where(), hist)
 					}
